@@ -141,7 +141,7 @@ def gen_subject(ch, sid, tier, chosen):
         if ch.chance(1, 6, "plink"):
             outs.append("plink")
         ops.append({"id": f"s{sid}-{t}-O{opt}", "src": src, "march": t,
-                    "opt": opt, "debug": bool(ch.chance(1, 5, "debug")),
+                    "opt": opt, "debug": bool(ch.chance(1, 3, "debug")),
                     "layout": ch.weighted([2, 1], "layout"),
                     "entry": f"{fnp}0", "outputs": outs})
     return ops
@@ -238,11 +238,18 @@ def gen_c3_ops(ch, b, chosen):
         t = ch.pick(cands, "c3target")
         opt = ch.pick(OPTS, "c3opt")
         outs = ["obj"] + (["img", "hex"] if ch.chance(1, 3, "c3img") else [])
-        srcs = [gen_c3_unit(ch, f"{b}_{n}_{k}")
-                for k in range(ch.weighted([0, 3, 2, 1], "c3nfiles"))]
+        srcs = []
+        exported = []
+        for k in range(ch.weighted([0, 3, 2, 1], "c3nfiles")):
+            imports = [e for e in exported if ch.chance(1, 2, "c3import")]
+            src, exp = gen_c3_unit(ch, f"{b}_{n}_{k}", imports)
+            srcs.append(src)
+            exported.append(exp)
+        if ch.chance(1, 2, "c3fileorder"):
+            srcs.reverse()  # importing module first on the command line
         ops.append({"id": f"c3_{b}.{n}-{t}-O{opt}", "lang": "c3",
                     "src": srcs[0], "more_srcs": srcs[1:], "march": t,
-                    "opt": opt, "debug": bool(ch.chance(1, 5, "c3debug")),
+                    "opt": opt, "debug": bool(ch.chance(1, 3, "c3debug")),
                     "outputs": outs})
     return ops
 
